@@ -15,6 +15,32 @@ from .slots import SCOPE_SPAWN
 from .opa import FN_CALLS
 
 
+SPAWN_SCOPED = 'std::thread::Builder::spawn_scoped'
+UNWRAPS = ('std::result::Result::expect', 'std::result::Result::unwrap')
+
+
+def spawn_of_term(t):
+    """(closure handed to the new thread, builder configuration or None) when the term is the handle of a scoped spawn:
+    `Scope::spawn(s, f)` or `Builder::spawn_scoped(builder, s, f).expect(..)` - also as the inlined value of a crate wrapper"""
+    if t is None or t[0] != 'call':
+        return None
+    c = sg(t[1])
+    if c == SCOPE_SPAWN and len(t[2]) > 1:
+        return t[2][1], None
+    if c in UNWRAPS and t[2] and t[2][0][0] == 'call' and sg(t[2][0][1]).startswith('std::thread::') and sg(t[2][0][1]).endswith('::spawn_scoped') and len(t[2][0][2]) >= 3:
+        return t[2][0][2][2], t[2][0][2][0]
+    return None
+
+
+def is_spawn_record(c):
+    """a call record whose value is a spawn handle: the spawn primitive itself, the unwrap of a builder spawn, or a loop-free crate
+    wrapper around either (inlined by the analysis)"""
+    if spawn_of_term(c['res']) is None:
+        return False
+    cal = sg(c['callee'])
+    return cal == SCOPE_SPAWN or cal in UNWRAPS or bool(c['t'].get('local'))
+
+
 def closure_term_in(r, name):
     """the ('closure', name, caps) term as created in the body whose opa result is r"""
     seen = set()
@@ -34,8 +60,10 @@ class SpawnSite:
     def __init__(self, body, bb, c):
         self.body = body
         self.bb = bb
-        self.c = c                      # call record of Scope::spawn
-        self.spawned = c['args'][1] if len(c['args']) > 1 else None    # the closure handed to the worker
+        self.c = c                      # call record whose value is the spawn handle
+        sp = spawn_of_term(c['res'])
+        self.spawned = sp[0] if sp else (c['args'][1] if len(c['args']) > 1 else None)    # the closure handed to the worker
+        self.config = sp[1] if sp else None
 
 
 class Event:
@@ -65,7 +93,7 @@ class SpawnModel:
             for bd in bodies:
                 r = ctx.run(bd.name)
                 for bb, c in r.call_sites():
-                    if sg(c['callee']) == SCOPE_SPAWN:
+                    if is_spawn_record(c):
                         sl.append(SpawnSite(bd, bb, c))
             self.sites[entry] = sl
         # hosts: bodies that call do_spawn
@@ -95,7 +123,7 @@ class SpawnModel:
         if cb is None:
             return None
         r = self.ctx.run(cb.name)
-        sp = [(bb, c) for bb, c in r.call_sites() if sg(c['callee']) == SCOPE_SPAWN]
+        sp = [(bb, c) for bb, c in r.call_sites() if is_spawn_record(c)]
         if len(sp) != 1:
             return None
         bb, c = sp[0]
@@ -115,8 +143,8 @@ class SpawnModel:
                 h['entries'].add(entry)
         callers = ctx.cg.callers(b.name, kinds=('direct', 'cha')) if not b.is_closure() else []
         for bb, c in r.call_sites():
-            if sg(c['callee']) == SCOPE_SPAWN:
-                sp = c['args'][1] if len(c['args']) > 1 else None
+            if is_spawn_record(c):
+                sp = spawn_of_term(c['res'])[0]
                 chunk = None
                 if sp is not None and sp[0] == 'closure':
                     sb = F.bodies.get(sp[1])
